@@ -7,6 +7,7 @@ import (
 	"fmt"
 	"math/rand"
 	"os"
+	"regexp"
 	"strings"
 	"sync"
 	"sync/atomic"
@@ -264,6 +265,38 @@ func runConfig(t *testing.T, r *vrep.Report, tr *vrep.Report, cfg config, nClien
 				d["rpc_window"] = win
 			}
 		}
+		{
+			w, _ := v.Detail.(map[string]any)
+			// the request history of every transaction the violation message names and of every
+			// transaction whose value the read should have / has returned
+			writers := map[uint64]bool{}
+			for _, num := range tsRe.FindAllString(v.Msg, -1) {
+				var ts uint64
+				if _, err := fmt.Sscanf(num, "%d", &ts); err == nil {
+					writers[ts] = true
+				}
+			}
+			for _, m := range []any{w["expected_vals"], w["returned"]} {
+				if mm, ok := m.(map[string]string); ok {
+					for _, val := range mm {
+						var ts uint64
+						if _, err := fmt.Sscanf(val, "%d#", &ts); err == nil && ts != 0 {
+							writers[ts] = true
+						}
+					}
+				}
+			}
+			var hist []string
+			for _, c := range allCalls {
+				if writers[c.StartTS] && len(hist) < 200 {
+					switch c.Cmd {
+					case tikvrpc.CmdPrewrite, tikvrpc.CmdCommit, tikvrpc.CmdBatchRollback, tikvrpc.CmdResolveLock, tikvrpc.CmdCheckTxnStatus, tikvrpc.CmdCheckSecondaryLocks, tikvrpc.CmdPessimisticLock:
+						hist = append(hist, fmt.Sprintf("#%d..%d c%d %s %s err=%q regErr=%v :: %.260v => %.160v", c.Seq, c.RetSeq, c.Client, c.Cmd, c.Action, c.Err, c.RegionErr != nil, c.Req, c.Resp))
+					}
+				}
+			}
+			d["writer_histories"] = hist
+		}
 		r.Violate(v.Sig, cfg.String()+": "+v.Msg, d)
 	}
 	// the C04 trace monitor runs over the same execution
@@ -323,6 +356,8 @@ func runConfig(t *testing.T, r *vrep.Report, tr *vrep.Report, cfg config, nClien
 		r.Sample(map[string]any{"config": cfg.String(), "txn": rec.Spec.String(), "start_ts": rec.StartTS, "commit": rec.CommitClass, "commit_ts": rec.CommitTS, "reads": len(rec.Reads), "classes": classes})
 	}
 }
+
+var tsRe = regexp.MustCompile(`[0-9]{15,}`)
 
 func recoverAll(u *uni.Universe, obs *uni.ClientStore) error {
 	ctx := context.Background()
